@@ -19,6 +19,10 @@ func init() {
 			f.PatchJSON = r.Intn(2) == 0
 			f.PatchSM = r.Intn(2) == 0
 			f.Dense = r.Intn(3) != 0
+			if r.Intn(2) == 0 {
+				// referrer and referent in sibling sub-trees, each with its own prefixes and suffixes
+				f.SiblingHeavy, f.AffixHeavy, f.MaxLayers = true, true, 4
+			}
 			t := genTree(r, f)
 			addGenerators(r, t)
 			if len(t.Edges) == 0 {
@@ -41,7 +45,7 @@ func init() {
 					continue // C02's business (resource lost or duplicated)
 				}
 				// cross-namespace after the build is not a reference any more (user error, outside the domain)
-				if !isClusterScoped(b.Kind) && t.predictedNS(a) != t.predictedNS(b) {
+				if !b.clusterScoped() && t.predictedNS(a) != t.predictedNS(b) {
 					continue
 				}
 				got, ok := getPath(bt[e.From][0], e.Path)
